@@ -58,7 +58,12 @@ func TestReplay(t *testing.T) {
 	hist, _ := strconv.Atoi(p[2])
 	nOps, _ := strconv.Atoi(p[3])
 	var prof *Profile
-	for _, pr := range []*Profile{profEconomic(), profUnusual(), profStaking(), profSubs(), func() *Profile { p := profSubs(); p.Name = "subsdirected"; p.Prologue = prologueFailedRenewal; return p }(), profPairingFor(0), profPairingFor(1), {Name: "default", Providers: 6, Consumers: 3, Delegators: 2, Validators: 2, KeepPools: true}} {
+	for _, pr := range []*Profile{profEconomic(), profUnusual(), profStaking(), profSubs(), func() *Profile {
+		p := profSubs()
+		p.Name = "subsdirected"
+		p.Prologue = prologueFailedRenewal
+		return p
+	}(), profPairingFor(0), profPairingFor(1), {Name: "default", Providers: 6, Consumers: 3, Delegators: 2, Validators: 2, KeepPools: true}} {
 		if pr.Name == p[0] {
 			prof = pr
 		}
